@@ -56,7 +56,7 @@ func genC15(x *Ctx) *c15Scen {
 	}
 	first := c15First[tp.G(len(c15First))]
 	if first != "none" {
-		c := c15Call{Kind: first, Status: []int{200, 201, 404, 500, 202, 42, 1000, 299}[tp.G(8)], N: tp.G(maxN + 1)}
+		c := c15Call{Kind: first, Status: []int{200, 201, 404, 500, 202, 42, 1000, 299, 101}[tp.G(9)], N: tp.G(maxN + 1)}
 		if tp.Chance(60) {
 			c.N = []int{4096, 5000, 8192, 9000}[tp.G(4)] // entities that make the streaming encoders flush more than once
 		}
